@@ -63,7 +63,10 @@ def run(patch, chk):
     t0 = time.time()
     r = subprocess.run(["/verif/tools/mutcheck.sh", patch, chk, tier], capture_output=True, text=True)
     lines = [l for l in r.stdout.splitlines() if l.startswith("VIOLATION") or l.startswith("  (") or l.startswith("INCONCLUSIVE")]
-    return {"rc": r.returncode, "detected": r.returncode == 1, "wall_s": round(time.time() - t0, 1), "report": [l[:300] for l in lines[:2]]}
+    out = {"rc": r.returncode, "detected": r.returncode == 1, "wall_s": round(time.time() - t0, 1), "report": [l[:300] for l in lines[:2]]}
+    if "BUILD FAILED" in r.stdout or "build failed" in r.stdout:
+        out["build_failed"] = True  # the patch applies textually but no longer compiles: stale, not a miss
+    return out
 
 
 for idx, d in enumerate(sorted(glob.glob("seeded/C*-*"))):
@@ -99,6 +102,8 @@ for idx, d in enumerate(sorted(glob.glob("seeded/C*-*"))):
                 checks[c] = run(patch, c)
     entry["checks"] = checks
     entry["status"] = "detected" if any(v["detected"] for v in checks.values()) else "MISSED"
+    if any(v.get("build_failed") for v in checks.values()):
+        entry["status"] = "stale: patch applies but does not compile on " + head
     res[name] = entry
     print(name, entry["status"], {c: v["detected"] for c, v in checks.items()}, flush=True)
     json.dump({"repo_head": head, "tier": tier, "seeds": res}, open(OUT, "w"), indent=1)
